@@ -695,12 +695,8 @@ def c04_r6(ctx):
             org = f.origins_of_operand(rv["ops"][0])
             # must be the very path that was looked up: find the lookup call that dominates and compare
             lookups = [c for c in f.calls if (c.trait == SYS and c.name in ("get_modified", "is_file", "open")) or c.path.startswith("blob::get_file_ticket")]
-            same = False
-            for c in lookups:
-                if f.dominated_by_blocks(bb, [c.bb]) and c.bb != bb:
-                    po = f.origins_of_operand(c.args[1])
-                    if po == org:
-                        same = True
+            same_calls = [c for c in lookups if c.bb != bb and f.origins_of_operand(c.args[1]) == org]
+            same = bool(same_calls) and f.dominated_by_blocks(bb, [c.bb for c in same_calls])
             if not same:
                 ctx.viol((f.id, "error-path-other-file", var), "%s names a path other than the one whose lookup failed" % var, f.where(bb, idx))
             else:
